@@ -23,6 +23,11 @@ CLAIMED = {
    "DESIGN.md §4 C10",
    "Trusted: frozen table guarded-field → mutex (checker/props/c10.go); closures passed to sort/slices helpers run synchronously; finalizers run on unreachable objects; syntactic paths (no infeasible-path pruning).",
    "static: must-lockset dataflow + dominance (must-pass-through) checks on go/ssa"),
+ "C07": ("other",
+   "The structural clause of the property is decided completely for every guest program and both engines: each of the only three cycle-forming opcodes (loop, return_call, return_call_indirect) lowers to code that contains the termination check under exactly the close-on-context-done flag, placed inside the cycle; the Go side of the check panics with FailIfClosed's exit error; both call entries pre-check ctx.Done(), start the watcher under the flag and defer its cancel; the watcher maps both context errors to their exit codes. Breaking any obligation yields a guest (a loop shape or a tail-call cycle) that cannot be stopped. Promptness and watcher scheduling are not decided.",
+   "DESIGN.md §4 C07",
+   "Trusted: completeness argument for the cycle-forming opcode list (stated in the evidence), boundedness of the call stack, anchors derived by data flow from Engine.CompileModule's ensureTermination parameter; the emitted machine code of the check is not inspected.",
+   "static: must-pass-through / placement rules over the lowering dispatchers' syntax trees with anchors resolved by SSA data flow"),
 }
 
 NOT_APPLICABLE = {
